@@ -181,6 +181,19 @@ def _dist(det):
         return "NA"
 
 
+def _feed(x, how):
+    """the sample as the caller hands it over.  "halves": a one-row Python list holding x/2, whole numbers as ints and
+    the others as floats (with cutpoint_proportion_lbound = 0 the kdq-tree is scale-equivariant and halves are exact, so
+    the specification on the integer points x describes the same tree; callers use it only with lbnum = 0); a row of whole numbers is then an all-int list, and the values of the
+    window must not depend on the type of the row that happened to come first"""
+    if how == "halves":
+        return [[v // 2 if v % 2 == 0 else v / 2 for v in x]]
+    if how == "frame":
+        import pandas as pd
+        return pd.DataFrame([list(x)], columns=["c%d" % i for i in range(len(x))], dtype=float)
+    return np.array([x], dtype=float)
+
+
 def run_stream(p, xs, resets=(), seed=0):
     """p: window_size, persistence, alpha, bootstrap_samples, count_ubound, lbnum, lbden; xs: list of integer points"""
     from menelaus.data_drift import KdqTreeStreaming
@@ -201,7 +214,7 @@ def run_stream(p, xs, resets=(), seed=0):
         if det.drift_state == "drift":
             epoch, have_ref = [], False
         np.random.seed((seed * 7919 + t) % (2 ** 32))
-        det.update(np.array([x], dtype=float))
+        det.update(_feed(x, p.get("feed", "array")))
         c = {"crit": _crit(det), "lo": "None", "hi": "None"}
         if not have_ref:
             epoch.append(x)
